@@ -234,6 +234,14 @@ func main() {
 		eq(fmt.Sprintf("gen_Reach 20 %s %s %s", zl(off), zl(adj), z(int64(r))), opt(zl(sem.Reach(off, adj, r))))
 	}
 	eq(fmt.Sprintf("gen_Reach 2 %s %s (0)%%Z", zl(off), zl(adj)), "None")
+	// ---- a function that returns a closure (uncurried), comma-ok assertion, method value
+	for _, p := range [][2]int{{3, 10}, {1, 0}, {5, 23}, {2, 7}} {
+		eq(fmt.Sprintf("gen_MakeScale (fun x => (100 - x)%%Z) false (fun x => (2 * x + 1)%%Z) 40 %s %s", z(int64(p[0])), z(int64(p[1]))),
+			opt(z(int64(sem.MakeScale(sem.Dbl{}, p[0])(p[1])))))
+		eq(fmt.Sprintf("gen_MakeScale (fun x => (100 - x)%%Z) true (fun x => (2 * x + 1)%%Z) 40 %s %s", z(int64(p[0])), z(int64(p[1]))),
+			opt(z(int64(sem.MakeScale(sem.Quick{}, p[0])(p[1])))))
+	}
+	eq("gen_MakeScale (fun x => (100 - x)%Z) false (fun x => (2 * x + 1)%Z) 2 (1)%Z (7)%Z", "None")
 	// ---- goto found out of a search loop
 	for _, p := range [][2][]int{{{1, 2, 3}, {2, 5, 5, 1, 7}}, {{}, {4, 4}}, {{9}, {}}, {{3, 3}, {3, 8}}} {
 		eq(fmt.Sprintf("gen_AddUnique %s %s", zl(p[0]), zl(p[1])), zl(sem.AddUnique(append([]int{}, p[0]...), p[1])))
